@@ -6,7 +6,7 @@ from vlib import core
 from harness import wsgen, wsrun, wsoracle
 
 PROP = "C02"
-PROOF_MODULES = ["Abverif.Proofs.C02"]
+PROOF_MODULES = ["Abverif.Proofs.Lemmas.HeaderTable", "Abverif.Proofs.C02"]
 TRUSTED = [
     "Lean 4.33 kernel; axioms of every theorem within {propext, Classical.choice, Quot.sound}",
     "hand-written model Abverif/Model/Ws.lean of processData/onFrame*/processControlFrame/onCloseFrame/_fail_connection; "
